@@ -31,7 +31,12 @@ func c14Keys() []c14Key {
 	mk := func(curve, alg string) c14Key {
 		return c14Key{Name: alg, Key: &jose.JSONWebKey{Key: k.ServerEC[curve], Algorithm: alg, KeyID: "ec-" + curve, Use: "sig"}, Pub: &k.ServerEC[curve].PublicKey, Alg: alg}
 	}
-	return []c14Key{{Name: "RS256", Key: k.ServerRSA, Pub: &k.ServerRSA.PublicKey, Alg: "RS256"}, mk("P-256", "ES256"), mk("P-384", "ES384"), mk("P-521", "ES512")}
+	// the server's RSA key used with another algorithm of the RSA family (the JWK names it): RSASSA-PSS and the longer PKCS#1 hashes
+	rsa := func(alg string) c14Key {
+		return c14Key{Name: alg, Key: &jose.JSONWebKey{Key: k.ServerRSA, Algorithm: alg, KeyID: "rsa-" + alg, Use: "sig"}, Pub: &k.ServerRSA.PublicKey, Alg: alg}
+	}
+	return []c14Key{{Name: "RS256", Key: k.ServerRSA, Pub: &k.ServerRSA.PublicKey, Alg: "RS256"}, mk("P-256", "ES256"), mk("P-384", "ES384"), mk("P-521", "ES512"),
+		rsa("PS384"), rsa("PS512"), rsa("RS512"), rsa("PS256")}
 }
 
 func leftHalfHash(alg, v string) string {
